@@ -174,6 +174,10 @@ class SimLinkDriver(CRTPDriver):
                     heapq.heappush(self._inflight, (self._now() + spec.latency + extra, self._ctr, h2, bytes(d2)))
             self._wake.set()
         if spec.fail_after_tx is not None and n == spec.fail_after_tx:
+            if spec.fail_reporter == 'sender' and getattr(spec, 'fail_send_blocks', 0.0) > 0 and ds.CUR is not None:
+                # like the radio driver: the send call waits (for room in its queue) before it gives up and reports the error
+                # from the calling thread
+                ds.CUR.sleep(spec.fail_send_blocks)
             self._fault()
         elif spec.fail_on_tx is not None and spec.fail_on_tx(header, data):
             spec.fail_on_tx = None
